@@ -1,6 +1,8 @@
 import Gallia.Proofs.Lemmas.HsfzSys
 import Gallia.Proofs.Lemmas.HsfzOrder
 import Gallia.Proofs.Lemmas.HsfzRun
+import Gallia.Proofs.Lemmas.HsfzSysExec
+import Gallia.Proofs.Lemmas.HsfzSysTrace
 import Gallia.Gen.C07Hsfz
 /-
   C07 — HSFZ: frames are demultiplexed correctly under any segmentation and interleaving.
@@ -454,6 +456,200 @@ theorem closed_connection_refuses (cfg : Cfg) (yields : Wire → Bool) (s : Sys)
   refine ⟨by simp [execOp, hi, hc, isIdle], by simp [execOp, hi, hc, isIdle], ?_⟩
   simp only [execOp]
   rw [settle_stopped]; simp [hc]
+
+/-! ### whole executions of one connection, from before `connect()` to after `close()` (`Model/HsfzSys.lean`)
+
+  An execution is an arbitrary list of events `ops : List HsfzSys.Op` - bytes arriving in any segmentation (also before
+  `connect`), `connect`, client calls (write / read, each with the caller's timeout), `close`, end of stream, time
+  passing - run from the initial state `{}`; `yields` is an arbitrary schedule of reader task and blocked consumer; the
+  ack timeout is the one of the URI (`HsfzSys.cfgOfUri`).  `HsfzSys.fedBytes ops` is the whole byte stream the gateway
+  sent.  Every statement below holds for every `ops` and every `yields`. -/
+
+section WholeExecutions
+
+/-- the URI's `ack_timeout` default and the unit conversion are those of the code -/
+theorem uri_defaults_agree :
+    HsfzSys.defaultAckMs = Gen.C07Hsfz.defaultAckTimeoutMs ∧ Gen.C07Hsfz.ackTimeoutDivisor = 1000 ∧
+    (∀ a b, (HsfzSys.cfgOfUri a b none).ackTimeout = 1000) ∧ (∀ a b t, (HsfzSys.cfgOfUri a b (some t)).ackTimeout = t) := by
+  refine ⟨by decide, by decide, fun _ _ => rfl, fun _ _ _ => rfl⟩
+
+/-- **reads account for every data frame.**  For every event list and schedule: the payloads handed out by reads so
+    far, followed by the ECU -> tester payloads still on their way - held by the blocked consumer, queued, complete in
+    the receive buffer (of a connection closed meanwhile, or not yet connected) - are exactly the payloads of the
+    ECU -> tester data frames of the byte stream, in stream order: each delivered at most once, none lost, invented or
+    reordered, whatever else is interleaved and however the calls end.  `reads_account_for_every_frame` is the
+    instance for event lists that start with `connect` and never `close`. -/
+theorem hsfz_reads_account (cfg : Cfg) (yields : Wire → Bool) (ops : List HsfzSys.Op) :
+    delivered (HsfzSys.exec cfg yields {} ops).core.done ++
+      dataOf cfg (held (HsfzSys.exec cfg yields {} ops).core.client ++
+        ((HsfzSys.exec cfg yields {} ops).core.queue ++
+          items (parseAll hsfzCutter ((HsfzSys.exec cfg yields {} ops).core.buf ++ (HsfzSys.exec cfg yields {} ops).pre)).1)) =
+      dataOf cfg (items (parseAll hsfzCutter (HsfzSys.fedBytes ops)).1) ∧
+    delivered (HsfzSys.exec cfg yields {} ops).core.done <+:
+      dataOf cfg (items (parseAll hsfzCutter (HsfzSys.fedBytes ops)).1) := by
+  have h := (HsfzSys.exec_core_conserved cfg yields (WF cfg) (arrived cfg)
+    (fun c o hc => execOp_arrived cfg yields c o hc)
+    (fun c hc _ => ⟨⟨fun sk cc h => hc.1 sk cc h, hc.2⟩, fun _ => rfl⟩) ops {} (WF_idle cfg _ rfl rfl)
+    (fun h => by cases h)).2 []
+  have h1 : delivered (HsfzSys.exec cfg yields {} ops).core.done ++
+      dataOf cfg (held (HsfzSys.exec cfg yields {} ops).core.client ++
+        ((HsfzSys.exec cfg yields {} ops).core.queue ++
+          items (parseAll hsfzCutter ((HsfzSys.exec cfg yields {} ops).core.buf ++ (HsfzSys.exec cfg yields {} ops).pre)).1)) =
+      dataOf cfg (items (parseAll hsfzCutter (HsfzSys.fedBytes ops)).1) := by
+    simpa [arrived, held] using h
+  exact ⟨h1, ⟨_, h1⟩⟩
+
+/-- **a closed connection never has a blocked call.**  In every state of every execution: a closed connection
+    (client `close()`, ack timeout, error control word) has no pending call; an open connection whose stream is
+    alive has parsed every complete frame; a blocked call has drained the queue and its connection is open -/
+theorem hsfz_closed_never_blocks (cfg : Cfg) (yields : Wire → Bool) (ops : List HsfzSys.Op) :
+    ((HsfzSys.exec cfg yields {} ops).core.closed = true → (HsfzSys.exec cfg yields {} ops).core.client = .idle) ∧
+    (((HsfzSys.exec cfg yields {} ops).core.closed || (HsfzSys.exec cfg yields {} ops).core.eof) = false →
+      cutWire (HsfzSys.exec cfg yields {} ops).core.buf = none) ∧
+    ((HsfzSys.exec cfg yields {} ops).core.client ≠ .idle →
+      (HsfzSys.exec cfg yields {} ops).core.queue = [] ∧ (HsfzSys.exec cfg yields {} ops).core.closed = false) := by
+  have h := HsfzSys.exec_hinv cfg yields ops {} HInv_init
+  refine ⟨fun hc => ?_, h.quiet, fun hb => ?_⟩
+  · by_cases hi : (HsfzSys.exec cfg yields {} ops).core.client = .idle
+    · exact hi
+    · have := (h.busy hi).1; simp [hc] at this
+  · obtain ⟨a, b⟩ := h.busy hb
+    refine ⟨b, ?_⟩
+    cases hcc : (HsfzSys.exec cfg yields {} ops).core.closed <;> simp_all
+
+/-- **write outcomes over whole executions of the system.**  At any point of any execution (`ops0`: any events, `close`
+    and `connect` included) with the connection established, the client idle, the connection open and the stream alive,
+    a write starts; `ops` is any continuation of gateway bytes and passing time (what can happen while the one client
+    task is blocked), `rest` any events afterwards.  `seen` = what is queued when the request goes out, followed by the
+    items the stream delivers strictly before the write's deadline `d` = the ack timeout of the URI or the caller's
+    earlier timeout.  For every schedule: the write ends with the *first* deciding item of `seen` (an ack with control
+    word 2, the tester's address pair and the first five request bytes completes it; a bare control word fails it and
+    closes the connection) at the instant that item is queued; without one it ends *exactly at* `d` - with the
+    caller's `TimeoutError`, or with "no ack" and the connection closed; before `d` it is still blocked holding
+    everything seen.  `hsfz_write_outcomes` is this statement for executions that never `close`. -/
+theorem hsfz_write_outcomes_sys (cfg : Cfg) (yields : Wire → Bool) (ops0 : List HsfzSys.Op) (data : Bytes)
+    (tmo : Option Nat) (ops rest : List HsfzSys.Op)
+    (s : HsfzSys.Sys) (hs : s = HsfzSys.exec cfg yields {} ops0)
+    (hconn : s.connected = true) (hidle : s.core.client = .idle) (hopen : s.core.closed = false)
+    (hlive : s.core.eof = false) (htmo : tmo ≠ some 0) (hack : 0 < cfg.ackTimeout)
+    (hsafe : HsfzSys.gatewayOnly ops) (d : Nat) (byCaller : Bool)
+    (hd : (d, byCaller) = ackExpiry (s.core.now + cfg.ackTimeout) (tmo.map (s.core.now + ·)))
+    (seen : List (Nat × Item))
+    (hseen : seen = s.core.queue.map (fun x => (s.core.now, x)) ++
+      (hlog s.core.buf s.core.now (HsfzSys.lowerOps ops)).filter (fun e => decide (e.1 < d)))
+    (S : HsfzSys.Sys) (hS : S = HsfzSys.exec cfg yields {} (ops0 ++ .write data tmo :: ops)) :
+    (∀ t x, seen.find? (fun e => decides (ackMatches cfg data) e.2) = some (t, x) →
+      ∃ more, (HsfzSys.exec cfg yields S rest).core.done = s.core.done ++ (t, ackResult data x) :: more ∧
+        (x.isFrame = false → (HsfzSys.exec cfg yields S rest).core.closed = true)) ∧
+    (seen.find? (fun e => decides (ackMatches cfg data) e.2) = none → d ≤ hnow s.core.now (HsfzSys.lowerOps ops) →
+      ∃ more, (HsfzSys.exec cfg yields S rest).core.done =
+          s.core.done ++ (d, if byCaller then .timeout else .noAck) :: more ∧
+        (byCaller = false → (HsfzSys.exec cfg yields S rest).core.closed = true)) ∧
+    (seen.find? (fun e => decides (ackMatches cfg data) e.2) = none → hnow s.core.now (HsfzSys.lowerOps ops) < d →
+      S.core.client = .ackWait data (s.core.queue ++ (hlog s.core.buf s.core.now (HsfzSys.lowerOps ops)).map (·.2))
+        (s.core.now + cfg.ackTimeout) (tmo.map (s.core.now + ·)) ∧ S.core.done = s.core.done ∧
+      (S.core.closed || S.core.eof) = false) := by
+  subst hseen
+  have hinv : HInv s.core := by rw [hs]; exact HsfzSys.exec_hinv cfg yields ops0 {} HInv_init
+  have hw : (HsfzSys.execOp cfg yields s (.write data tmo)).core = execOp cfg yields s.core (.write data tmo) ∧
+      (HsfzSys.execOp cfg yields s (.write data tmo)).connected = true := by
+    simp [HsfzSys.execOp, hconn]
+  have hS' : S.core = exec cfg yields (execOp cfg yields s.core (.write data tmo)) (HsfzSys.lowerOps ops) := by
+    rw [hS, HsfzSys.exec_append, ← hs]
+    have : HsfzSys.exec cfg yields s (.write data tmo :: ops) =
+        HsfzSys.exec cfg yields (HsfzSys.execOp cfg yields s (.write data tmo)) ops := by simp [HsfzSys.exec]
+    rw [this, (HsfzSys.exec_gateway cfg yields ops _ hw.2 hsafe).1, hw.1]
+  obtain ⟨a, b, c⟩ := write_run cfg yields s.core hinv hidle hopen hlive data tmo htmo hack (HsfzSys.lowerOps ops)
+    (HsfzSys.lowerOps_gatewayOnly ops hsafe) d byCaller hd
+  obtain ⟨m2, hm2⟩ := HsfzSys.exec_done_ext cfg yields rest S
+  refine ⟨fun t x h => ?_, fun h hle => ?_, fun h hlt => ?_⟩
+  · obtain ⟨more, e1, e2⟩ := a t x h []
+    replace e1 : S.core.done = s.core.done ++ (t, ackResult data x) :: more := by rw [hS']; exact e1
+    replace e2 : x.isFrame = false → S.core.closed = true := by rw [hS']; exact e2
+    refine ⟨more ++ m2, by rw [hm2, e1]; simp, fun hx => HsfzSys.exec_closed_mono cfg yields rest S (e2 hx)⟩
+  · obtain ⟨more, e1, e2⟩ := b h hle []
+    replace e1 : S.core.done = s.core.done ++ (d, if byCaller then .timeout else .noAck) :: more := by
+      rw [hS']; exact e1
+    replace e2 : byCaller = false → S.core.closed = true := by rw [hS']; exact e2
+    refine ⟨more ++ m2, by rw [hm2, e1]; simp, fun hx => HsfzSys.exec_closed_mono cfg yields rest S (e2 hx)⟩
+  · have := c h hlt
+    rw [← hS'] at this
+    exact this
+
+/-- **frames with `Len < 2` never desynchronise the stream.**  For every event list and schedule the frames the reader
+    task has handled (its own trace), followed by the frames still complete in the receive buffer (connection closed
+    meanwhile / stream ended / not yet connected), are exactly the frames of the byte stream, in order - short frames
+    (no address header, any control word) are handled as one frame each and the frames behind them are cut as without
+    them (`short_frames_consumed` gives the right-hand side for a stream of encoded frames).  On an established, open
+    connection whose stream is alive every frame received has been handled. -/
+theorem hsfz_short_frames_consumed (cfg : Cfg) (yields : Wire → Bool) (ops : List HsfzSys.Op) :
+    HsfzSys.rxWires (HsfzSys.exec cfg yields {} ops).tr ++
+        (parseAll hsfzCutter ((HsfzSys.exec cfg yields {} ops).core.buf ++ (HsfzSys.exec cfg yields {} ops).pre)).1 =
+      (parseAll hsfzCutter (HsfzSys.fedBytes ops)).1 ∧
+    ((HsfzSys.exec cfg yields {} ops).connected = true →
+      ((HsfzSys.exec cfg yields {} ops).core.closed || (HsfzSys.exec cfg yields {} ops).core.eof) = false →
+      HsfzSys.rxWires (HsfzSys.exec cfg yields {} ops).tr = (parseAll hsfzCutter (HsfzSys.fedBytes ops)).1) := by
+  have h := (HsfzSys.exec_trace cfg yields ops {} (fun h => by cases h)).1 []
+  have h1 : HsfzSys.rxWires (HsfzSys.exec cfg yields {} ops).tr ++
+        (parseAll hsfzCutter ((HsfzSys.exec cfg yields {} ops).core.buf ++ (HsfzSys.exec cfg yields {} ops).pre)).1 =
+      (parseAll hsfzCutter (HsfzSys.fedBytes ops)).1 := by
+    simpa [HsfzSys.rxAll, HsfzSys.rxWires] using h
+  refine ⟨h1, fun hc ho => ?_⟩
+  have hp := HsfzSys.exec_preOk cfg yields ops {} (fun h => by cases h) hc
+  have hq := (HsfzSys.exec_hinv cfg yields ops {} HInv_init).quiet ho
+  rw [← h1, hp, List.append_nil, parseAll_none hsfzCutter (by simpa [hsfzCutter] using hq)]
+  simp
+
+/-- **alive checks are always answered** (whole-execution part on the reader task's own trace; the remaining link -
+    that the replies among the bytes written are, one each and in order, those of the trace with the instants of the
+    events that completed the requests - is proved per reader-task run: `alive_immediate`).
+    For every event list and schedule: every alive check the reader task has handled is followed by its reply before
+    the next frame is handled, and the handled frames are all the stream's frames (`hsfz_short_frames_consumed`), so on
+    an open connection every alive check received has been answered; the reply is written by the reader-task step
+    itself (`deliver`) at the current instant, carries the tester address in two bytes, and does not depend on the
+    client's phase (idle, waiting for an ack and holding the write mutex, blocked in a read). -/
+theorem hsfz_alive_always_answered_partial (cfg : Cfg) (yields : Wire → Bool) (ops : List HsfzSys.Op) :
+    HsfzSys.answered (HsfzSys.exec cfg yields {} ops).tr = true ∧
+    (∀ (c : Sys) (cl : Client) (w : Wire), w.cw = cwAlive →
+      (deliver cfg { c with client := cl } w).out = c.out ++ [(c.now, [0, 0, 0, 2, 0, 0x12, 0, cfg.src])]) := by
+  refine ⟨(HsfzSys.exec_trace cfg yields ops {} (fun h => by cases h)).2 rfl, fun c cl w hw => ?_⟩
+  rw [deliver_out, alive_reply_bytes]; simp [hw]
+
+/-- **closed is final and fails fast** (with `hsfz_write_outcomes_sys` / `error_word_closes_read` /
+    `error_word_closes_write`: a control word other than data / ack / alive surfaces as a connection error to the call
+    that dequeues it and closes the connection).  Once an execution has closed the connection - by an error control
+    word, the ack timeout or the client's `close()` - whatever follows (`more`): it stays closed, no call is pending,
+    and a read / write issued then ends at the instant it starts (EBADFD / ConnectionResetError) and writes nothing -/
+theorem hsfz_error_word_closes_partial (cfg : Cfg) (yields : Wire → Bool) (ops more : List HsfzSys.Op)
+    (hc : (HsfzSys.exec cfg yields {} ops).core.closed = true) (t : Option Nat) (data : Bytes) :
+    (HsfzSys.exec cfg yields {} (ops ++ more)).core.closed = true ∧
+    (HsfzSys.exec cfg yields {} (ops ++ more)).core.client = .idle ∧
+    execOp cfg yields (HsfzSys.exec cfg yields {} (ops ++ more)).core (.read t) =
+      { (HsfzSys.exec cfg yields {} (ops ++ more)).core with
+        done := (HsfzSys.exec cfg yields {} (ops ++ more)).core.done ++ [((HsfzSys.exec cfg yields {} (ops ++ more)).core.now, .badFd)] } ∧
+    execOp cfg yields (HsfzSys.exec cfg yields {} (ops ++ more)).core (.write data t) =
+      { (HsfzSys.exec cfg yields {} (ops ++ more)).core with
+        done := (HsfzSys.exec cfg yields {} (ops ++ more)).core.done ++ [((HsfzSys.exec cfg yields {} (ops ++ more)).core.now, .connReset)] } := by
+  have h1 : (HsfzSys.exec cfg yields {} (ops ++ more)).core.closed = true := by
+    rw [HsfzSys.exec_append]; exact HsfzSys.exec_closed_mono cfg yields more _ hc
+  have h2 := (hsfz_closed_never_blocks cfg yields (ops ++ more)).1 h1
+  obtain ⟨a, b, _⟩ := closed_connection_refuses cfg yields _ h1 h2 t data []
+  exact ⟨h1, h2, a, b⟩
+
+/-- the hypotheses and shapes above are inhabited: bytes before `connect()` (a data frame, an alive check, a short
+    frame), a write acked behind a foreign frame, a read, `close()`, then calls on the closed connection -/
+example :
+    let cfg := HsfzSys.cfgOfUri 0xf4 0x10 none
+    let pre := encodeWire (.full cwData 0x10 0xf4 [0x62]) ++ encodeWire (.full cwAlive 0 0 []) ++ encodeWire (.short cwData [0xaa])
+    let S := HsfzSys.exec cfg (asyncioYields true) {}
+      [.feed pre, .connect, .write [0x3e, 0x00] none, .advance 7,
+       .feed (encodeWire (.full cwData 0x10 0xf5 [1]) ++ encodeWire (.full cwAck 0xf4 0x10 [0x3e, 0x00])), .read (some 40),
+       .close, .read none, .write [1] none]
+    S.core.done = [(7, .wrote 2), (7, .data [0x62]), (7, .badFd), (7, .connReset)] ∧ S.core.closed = true ∧
+    (HsfzSys.rxWires S.tr).length = 5 ∧ S.core.out.length = 2 := by
+  decide +kernel
+
+end WholeExecutions
 
 /-! ### non-vacuity -/
 
